@@ -43,7 +43,7 @@ def classify(exc):
 
 
 class SM:
-    __slots__ = ("uploaded", "etag", "uid", "token", "history", "ctype", "served")
+    __slots__ = ("uploaded", "etag", "uid", "token", "history", "ctype", "served", "bigbody")
 
 
 class StoreWorld:
@@ -81,11 +81,22 @@ class StoreWorld:
 
     def body(self, name, uid):
         tok = self.token()
+        # now and then a large member whose only changing bytes are at its end
+        big = self.rng.choice([70000, 140000, 200000]) if self.rng.random() < 0.08 else 0
+        if name in self.model and getattr(self.model[name], "bigbody", None) and self.rng.random() < 0.8:
+            # tail-only change of the previous large body
+            prev, ptok = self.model[name].bigbody
+            self._lastbig = (prev.replace(ptok.encode(), tok.encode()), tok)
+            self.res.count("store_tail_only_changes")
+            return self._lastbig[0], tok
         if name.endswith(".ics"):
-            return gen.ical(self.rng, uid, tok), tok
-        if name.endswith(".vcf"):
-            return gen.vcard(self.rng, uid, tok), tok
-        return gen.other_file(self.rng, tok), tok
+            b = gen.ical(random.Random(len(name)), uid, tok, big=big, rich=False) if big else gen.ical(self.rng, uid, tok)
+        elif name.endswith(".vcf"):
+            b = gen.vcard(random.Random(len(name)), uid, tok, big=big, rich=False) if big else gen.vcard(self.rng, uid, tok)
+        else:
+            return gen.other_file(self.rng, tok), tok
+        self._lastbig = (b, tok) if big else None
+        return b, tok
 
     def holders(self, exclude=None):
         return {m.uid: n for n, m in self.model.items() if n != exclude and m.uid is not None and n.endswith(".ics")}
@@ -116,6 +127,10 @@ class StoreWorld:
             m = SM()
             m.uploaded, m.etag, m.uid, m.token, m.ctype, m.served = body, etag, uid, tok, self.ctype(name), None
             m.history = (old.history + [(old.uploaded, old.etag)])[-6:] if old else []
+            lb = getattr(self, "_lastbig", None)
+            m.bigbody = lb if (lb and lb[0] == body) else None
+            if m.bigbody:
+                self.res.count("store_big_bodies")
             self.model[name] = m
         self.res.seen(self.backend, op, out, len(self.model))
         return out
